@@ -10,7 +10,9 @@ import (
 	"fmt"
 	"os"
 	"runtime/debug"
+	"strconv"
 	"strings"
+	"time"
 	"unicode/utf8"
 )
 
@@ -39,6 +41,10 @@ func main() {
 		os.Exit(3)
 	}
 	defer o.Close()
+	caseTimeout := 120 * time.Second
+	if v, err := strconv.Atoi(os.Getenv("KDRIVE_CASE_TIMEOUT")); err == nil && v > 0 {
+		caseTimeout = time.Duration(v) * time.Second
+	}
 	sc := bufio.NewScanner(f)
 	sc.Buffer(make([]byte, 1<<20), 1<<28)
 	i := 0
@@ -58,7 +64,13 @@ func main() {
 			fmt.Fprintf(os.Stderr, "bad case line %d: %v\n", i, err)
 			os.Exit(3)
 		}
+		watch := time.AfterFunc(caseTimeout, func() {
+			// a hang: the supervisor attributes it to the case in progress
+			fmt.Fprintf(os.Stderr, "hang: case %d exceeded %s\n", i, caseTimeout)
+			os.Exit(4)
+		})
 		res := runCase(c)
+		watch.Stop()
 		b := encode(res)
 		// one write per observation, so that the number of lines in the
 		// output tells the supervisor which case was running at a crash
